@@ -362,6 +362,14 @@ def svd_stub(a, full_matrices=True, compute_uv=True, **kw):
     m, n = a.shape
     c = ctx()
     k = min(m, n)
+    # the stub is a function of its input: the same matrix gets the same (S, Vh)
+    memo = getattr(c, '_svd_memo', None)
+    if memo is None:
+        memo = c._svd_memo = {}
+    mkey = (m, n) + tuple((_qkey(as_sym(e).re), _qkey(as_sym(e).im)) for e in a.flat)
+    if mkey in memo:
+        S0, V0 = memo[mkey]
+        return None, S0.copy(), V0.copy()
     S = SymArray(k)
     for i in range(k):
         S[i] = Sym(Q.var(c.fresh_name("svd_S%d" % i), kind='svd'))
@@ -375,7 +383,12 @@ def svd_stub(a, full_matrices=True, compute_uv=True, **kw):
             nm = c.fresh_name("svd_V%d_%d" % (i, j))
             Vh[i, j] = Sym(Q.var(nm + "_re", kind='svd'), Q.var(nm + "_im", kind='svd'), True)
     c.svd_last = (a, S, Vh)
-    return None, S, Vh
+    memo[mkey] = (S, Vh)
+    return None, S.copy(), Vh.copy()
+
+
+def _qkey(q):
+    return (frozenset(q.n.t.items()), frozenset((hash(a), e) for a, e in q.d.items()))
 
 
 implements(np.linalg.svd)(svd_stub)
